@@ -26,8 +26,29 @@ type AnchorTable struct {
 
 // Fingerprint of one function.
 type Fingerprint struct {
-	Sig    string   `json:"sig"`
+	Sig    string   `json:"sig"`   // order-free signature: sorted parameter types (a receiver counts as a parameter) -> sorted result types
+	Short  string   `json:"short"` // the function's short key in the reviewed tree
+	Key    string   `json:"key"`   // its full key
 	Tokens []string `json:"tokens"`
+	// Callers: keys of the module functions that call this one statically (used when the function was merged into its only caller)
+	Callers []string `json:"callers,omitempty"`
+}
+
+// sigNorm is the signature modulo parameter order, result order and the method/function distinction.
+func sigNorm(f *ssa.Function) string {
+	var ps, rs []string
+	if r := f.Signature.Recv(); r != nil {
+		ps = append(ps, r.Type().String())
+	}
+	for i := 0; i < f.Signature.Params().Len(); i++ {
+		ps = append(ps, f.Signature.Params().At(i).Type().String())
+	}
+	for i := 0; i < f.Signature.Results().Len(); i++ {
+		rs = append(rs, f.Signature.Results().At(i).Type().String())
+	}
+	sort.Strings(ps)
+	sort.Strings(rs)
+	return strings.Join(ps, ",") + " -> " + strings.Join(rs, ",")
 }
 
 // AnchorFile is where the fingerprints are read from (set by main; empty disables the fallback).
@@ -37,7 +58,7 @@ func fpKey(pkgPath, recv, name string) string { return pkgPath + "|" + recv + "|
 
 // FingerprintOf computes the fingerprint of f.
 func (p *Prog) FingerprintOf(f *ssa.Function) Fingerprint {
-	fp := Fingerprint{Sig: f.Signature.String()}
+	fp := Fingerprint{Sig: sigNorm(f), Short: shortOf(FuncKey(f)), Key: FuncKey(f)}
 	set := map[string]bool{}
 	var scan func(g *ssa.Function)
 	scan = func(g *ssa.Function) {
@@ -101,7 +122,82 @@ func (p *Prog) Fingerprints() map[string]Fingerprint {
 		}
 		out[fpKey(pk.Path(), recv, f.Name())] = p.FingerprintOf(f)
 	}
+	// static callers
+	callers := map[string]map[string]bool{}
+	for _, f := range p.ModFuncs {
+		top := Outermost(f)
+		tpk := FuncPkg(top)
+		if tpk == nil || top.Synthetic != "" {
+			continue
+		}
+		from := fpKey(tpk.Path(), recvName(top), top.Name())
+		Instrs(f, func(in ssa.Instruction) {
+			cc := CallOf(in)
+			if cc == nil {
+				return
+			}
+			cal := cc.StaticCallee()
+			if cal == nil || cal.Parent() != nil || !p.InModule(cal) {
+				return
+			}
+			to := fpKey(FuncPkg(cal).Path(), recvName(cal), cal.Name())
+			if to == from {
+				return
+			}
+			if callers[to] == nil {
+				callers[to] = map[string]bool{}
+			}
+			callers[to][from] = true
+		})
+	}
+	for k, fp := range out {
+		for c := range callers[k] {
+			fp.Callers = append(fp.Callers, c)
+		}
+		sort.Strings(fp.Callers)
+		out[k] = fp
+	}
 	return out
+}
+
+// mergedInto: the recorded function is gone and was not renamed; if it had a single recorded caller, which still
+// exists and now contains what the function did (its callees, strings and fields), the function was merged into that
+// caller, and the caller is where the obligations attached to it are to be shown.
+func (p *Prog) mergedInto(pkgPath, recv, name string) *ssa.Function {
+	tab := p.loadAnchors()
+	want, ok := tab[fpKey(pkgPath, recv, name)]
+	if !ok || len(want.Callers) != 1 {
+		return nil
+	}
+	parts := strings.SplitN(want.Callers[0], "|", 3)
+	if len(parts) != 3 {
+		return nil
+	}
+	host := p.fnExact(parts[0], parts[1], parts[2])
+	if host == nil {
+		host = p.renamed(parts[0], parts[1], parts[2])
+	}
+	if host == nil {
+		return nil
+	}
+	have := map[string]bool{}
+	for _, t := range p.FingerprintOf(host).Tokens {
+		have[t] = true
+	}
+	n := 0
+	for _, t := range want.Tokens {
+		if have[t] {
+			n++
+		}
+	}
+	if len(want.Tokens) > 0 && float64(n)/float64(len(want.Tokens)) < 0.7 {
+		return nil
+	}
+	if p.Renames == nil {
+		p.Renames = map[string]string{}
+	}
+	p.Renames[fpKey(pkgPath, recv, name)] = "merged into " + FuncKey(host)
+	return host
 }
 
 func (p *Prog) loadAnchors() map[string]Fingerprint {
@@ -330,6 +426,18 @@ func (p *Prog) GlobalName(g *ssa.Global) string {
 
 // renamed looks for the function that (pkgPath, recv, name) was renamed to.
 func (p *Prog) renamed(pkgPath, recv, name string) *ssa.Function {
+	if f, done := p.renMemo[fpKey(pkgPath, recv, name)]; done {
+		return f
+	}
+	f := p.renamed1(pkgPath, recv, name)
+	if p.renMemo == nil {
+		p.renMemo = map[string]*ssa.Function{}
+	}
+	p.renMemo[fpKey(pkgPath, recv, name)] = f
+	return f
+}
+
+func (p *Prog) renamed1(pkgPath, recv, name string) *ssa.Function {
 	tab := p.loadAnchors()
 	want, ok := tab[fpKey(pkgPath, recv, name)]
 	if !ok {
@@ -355,9 +463,7 @@ func (p *Prog) renamed(pkgPath, recv, name string) *ssa.Function {
 				r = n.Obj().Name()
 			}
 		}
-		if r != recv {
-			continue
-		}
+		// (a method may have become a function of its former receiver, or the reverse: the order-free signature decides)
 		if _, known := tab[fpKey(pkgPath, r, f.Name())]; known {
 			continue // a function that already existed under this name is not the renamed one
 		}
@@ -400,67 +506,9 @@ func (p *Prog) renamed(pkgPath, recv, name string) *ssa.Function {
 func (p *Prog) CanonicalConstruct(s string) string {
 	if p.revRen == nil {
 		p.revRen = map[string]string{}
-		tab := p.loadAnchors()
-		if len(tab) > 0 {
-			// names present in the current tree
-			cur := map[string]bool{}
-			for _, f := range p.ModFuncs {
-				if f.Parent() != nil || f.Synthetic != "" {
-					continue
-				}
-				if pk := FuncPkg(f); pk != nil {
-					cur[fpKey(pk.Path(), recvName(f), f.Name())] = true
-				}
-			}
-			for _, f := range p.ModFuncs {
-				if f.Parent() != nil || f.Synthetic != "" {
-					continue
-				}
-				pk := FuncPkg(f)
-				if pk == nil || strings.HasSuffix(pk.Path(), "/proto") {
-					continue
-				}
-				if _, known := tab[fpKey(pk.Path(), recvName(f), f.Name())]; known {
-					continue
-				}
-				// f is new: which recorded, now missing function of the same package/receiver/signature does it match?
-				fp := p.FingerprintOf(f)
-				set := map[string]bool{}
-				for _, t := range fp.Tokens {
-					set[t] = true
-				}
-				best, bestScore, second := "", 0.0, 0.0
-				prefix := pk.Path() + "|" + recvName(f) + "|"
-				for k, old := range tab {
-					if !strings.HasPrefix(k, prefix) || cur[k] || old.Sig != fp.Sig {
-						continue
-					}
-					inter, union := 0, len(set)
-					for _, t := range old.Tokens {
-						if set[t] {
-							inter++
-						} else {
-							union++
-						}
-					}
-					score := 1.0
-					if union > 0 {
-						score = float64(inter) / float64(union)
-					}
-					if score > bestScore {
-						second = bestScore
-						best, bestScore = k, score
-					} else if score > second {
-						second = score
-					}
-				}
-				if best != "" && bestScore >= 0.7 && bestScore-second >= 0.15 {
-					oldName := best[strings.LastIndex(best, "|")+1:]
-					sk := ShortKey(f)
-					if strings.HasSuffix(sk, "."+f.Name()) {
-						p.revRen[sk] = sk[:len(sk)-len(f.Name())] + oldName
-					}
-				}
+		for old, f := range p.Moved() {
+			if rec := p.loadAnchors()[old]; rec.Short != "" && rec.Short != ShortKey(f) {
+				p.revRen[ShortKey(f)] = rec.Short
 			}
 		}
 	}
@@ -477,6 +525,131 @@ func (p *Prog) CanonicalConstruct(s string) string {
 		s = strings.ReplaceAll(s, k, p.revRen[k])
 	}
 	return s
+}
+
+// Moved maps every recorded function whose name no longer resolves to the function it was renamed (or converted) to.
+func (p *Prog) Moved() map[string]*ssa.Function {
+	if p.moved != nil {
+		return p.moved
+	}
+	p.moved = map[string]*ssa.Function{}
+	tab := p.loadAnchors()
+	if len(tab) == 0 {
+		return p.moved
+	}
+	p.moving = true
+	defer func() { p.moving = false }()
+	cur := p.currentKeys()
+	var missing []string
+	for k := range tab {
+		if !cur[k] {
+			missing = append(missing, k)
+		}
+	}
+	sort.Strings(missing)
+	for _, k := range missing {
+		parts := strings.SplitN(k, "|", 3)
+		if len(parts) != 3 || p.SSAPkgs[parts[0]] == nil {
+			continue
+		}
+		if f := p.renamed(parts[0], parts[1], parts[2]); f != nil {
+			p.moved[k] = f
+		}
+	}
+	return p.moved
+}
+
+func (p *Prog) currentKeys() map[string]bool {
+	cur := map[string]bool{}
+	for _, f := range p.ModFuncs {
+		if f.Parent() != nil || f.Synthetic != "" {
+			continue
+		}
+		if pk := FuncPkg(f); pk != nil {
+			cur[fpKey(pk.Path(), recvName(f), f.Name())] = true
+		}
+	}
+	return cur
+}
+
+// Fresh lists the module functions that did not exist in the reviewed tree: their name is not recorded and no
+// recorded function was renamed to them. The normaliser analyses them inlined into their callers.
+func (p *Prog) Fresh() []*ssa.Function {
+	tab := p.loadAnchors()
+	if len(tab) == 0 {
+		return nil
+	}
+	target := map[*ssa.Function]bool{}
+	for _, f := range p.Moved() {
+		target[f] = true
+	}
+	var out []*ssa.Function
+	for _, f := range p.ModFuncs {
+		if f.Parent() != nil || f.Synthetic != "" || f.Syntax() == nil || target[f] {
+			continue
+		}
+		pk := FuncPkg(f)
+		if pk == nil || strings.HasSuffix(pk.Path(), "/proto") || f.Name() == "init" || f.Name() == "main" {
+			continue
+		}
+		if _, known := tab[fpKey(pk.Path(), recvName(f), f.Name())]; known {
+			continue
+		}
+		out = append(out, f)
+	}
+	return out
+}
+
+// CanonKey is the key rules know f by: its recorded key if f is what a recorded function was renamed (or converted) to.
+func (p *Prog) CanonKey(f *ssa.Function) string {
+	if f == nil {
+		return "<nil>"
+	}
+	if p.canonFn == nil {
+		if p.moving {
+			return FuncKey(f) // (asked while the renames are being worked out)
+		}
+		p.canonFn = map[*ssa.Function]string{}
+		for old, g := range p.Moved() {
+			p.canonFn[g] = old
+		}
+	}
+	if old, ok := p.canonFn[f]; ok {
+		if rec := p.loadAnchors()[old]; rec.Key != "" {
+			return rec.Key
+		}
+	}
+	return FuncKey(f)
+}
+
+// CanonName is the recorded name of f (see CanonKey).
+func (p *Prog) CanonName(f *ssa.Function) string {
+	if f == nil {
+		return ""
+	}
+	p.CanonKey(f)
+	if old, ok := p.canonFn[f]; ok {
+		return old[strings.LastIndex(old, "|")+1:]
+	}
+	return f.Name()
+}
+
+// CanonKeyOf / CanonNameOf work on the loaded program.
+func CanonKeyOf(f *ssa.Function) string {
+	if current == nil {
+		return FuncKey(f)
+	}
+	return current.CanonKey(f)
+}
+
+func CanonNameOf(f *ssa.Function) string {
+	if current == nil || f == nil {
+		if f == nil {
+			return ""
+		}
+		return f.Name()
+	}
+	return current.CanonName(f)
 }
 
 func recvName(f *ssa.Function) string {
